@@ -85,14 +85,22 @@ KB_WIDE = {"module": "MC_adv", "key": "kb_wide", "quick": "MC_kb_quick.cfg", "th
 KB_DEEP = {"module": "MC_adv", "key": "kb_deep", "quick": None, "thorough": "MC_kb.cfg", "timeout": {"quick": 300, "thorough": 3000}}
 
 
+# configurations too large to exhaust (all fourteen adversary moves together, up to 5 steps, every expectation): TLC's simulator
+# draws random behaviours, checks every invariant on every state it visits, and the behaviours are replayed like any other
+MIX_SIM = {"module": "MC_adv", "key": "mix_sim", "quick": "MC_mix_sim.cfg", "thorough": "MC_mix_sim.cfg", "timeout": {"quick": 200, "thorough": 900},
+           "simulate": {"quick": {"num": 60, "depth": 20, "keep": 20000}, "thorough": {"num": 2500, "depth": 20, "keep": 60000}}}
+DK_SIM = {"module": "MC_adv", "key": "dk_sim", "quick": "MC_dk_sim.cfg", "thorough": "MC_dk_sim.cfg", "timeout": {"quick": 200, "thorough": 900},
+          "simulate": {"quick": {"num": 60, "depth": 20, "keep": 20000}, "thorough": {"num": 2500, "depth": 20, "keep": 60000}}}
 _A = ["TLC + CommunityModules Json", "harness codec (base64url, own JSON reader, SHA-256)", "ledger (EUF-CMA) abstraction of signatures", "wall clock"]
 PLANS.update({
     "C02": P(
         "model_checking",
         ["verify.lenient.sig", "verify.lenient.parse", "verify.calls", "verify.accept", "scn.expect.reject", "scn.expect.claims", "scn.model.agrees"],
-        [ADV("sig")],
-        [{"driver": "replay", "scn": "MC_adv", "args": {"n": 500, "matrix": 0}}, {"driver": "attack", "args": {"n": 16, "family": "jwt", "stride": 30}}],
-        [{"driver": "replay", "scn": "MC_adv", "args": {"n": 6000, "matrix": 0}}, {"driver": "attack", "args": {"n": 24, "family": "jwt", "stride": 1}}],
+        [ADV("sig"), MIX_SIM],
+        [{"driver": "replay", "scn": "MC_adv", "args": {"n": 500, "matrix": 0}}, {"driver": "replay", "scn": "mix_sim", "args": {"n": 300, "matrix": 0}},
+         {"driver": "attack", "args": {"n": 16, "family": "jwt", "stride": 30}}],
+        [{"driver": "replay", "scn": "MC_adv", "args": {"n": 6000, "matrix": 0}}, {"driver": "replay", "scn": "mix_sim", "args": {"n": 8000, "matrix": 0}},
+         {"driver": "attack", "args": {"n": 24, "family": "jwt", "stride": 1}}],
         required={"verify.lenient.sig": 500, "verify.accept": 20, "verify.calls": 20, "scn.model.agrees": 300},
         rule="cases = behaviours of MC_sig (alter / splice / strip / alg-rewrite / re-sign the issuer-signed JWT, resolvers constant and keyed by iss) replayed in both "
              "serializations + every single-character substitution / deletion / insertion at sampled (thorough: all) positions of real tokens, truncations, part swaps; "
@@ -102,9 +110,11 @@ PLANS.update({
     "C03": P(
         "model_checking",
         ["verify.claims", "verify.genuine", "verify.lenient.unpack", "scn.expect.reject", "scn.expect.claims", "scn.model.agrees"],
-        [ADV("disc")],
-        [{"driver": "replay", "scn": "MC_adv", "args": {"n": 500, "matrix": 0}}, {"driver": "attack", "args": {"n": 12, "family": "disc", "stride": 2}}],
-        [{"driver": "replay", "scn": "MC_adv", "args": {"n": 6000, "matrix": 0}}, {"driver": "attack", "args": {"n": 300, "family": "disc", "stride": 1}}],
+        [ADV("disc"), DK_SIM],
+        [{"driver": "replay", "scn": "MC_adv", "args": {"n": 500, "matrix": 0}}, {"driver": "replay", "scn": "dk_sim", "args": {"n": 300, "matrix": 0}},
+         {"driver": "attack", "args": {"n": 12, "family": "disc", "stride": 2}}],
+        [{"driver": "replay", "scn": "MC_adv", "args": {"n": 6000, "matrix": 0}}, {"driver": "replay", "scn": "dk_sim", "args": {"n": 8000, "matrix": 0}},
+         {"driver": "attack", "args": {"n": 300, "family": "disc", "stride": 1}}],
         required={"verify.claims": 300, "verify.genuine": 300, "scn.model.agrees": 300},
         rule="cases = behaviours of MC_disc (add genuine / altered / forged / foreign / garbage disclosures, drop, duplicate, swap; <= 2 steps) replayed in both "
              "serializations + random subsets / permutations / duplicates and nine re-serialisations of every genuine disclosure; distinct = distinct disclosure lists verified",
@@ -114,10 +124,12 @@ PLANS.update({
         "model_checking",
         ["verify.lenient.kb", "verify.lenient.args", "verify.accept", "present.ok", "present.kb", "present.kb.none", "scn.expect.reject", "scn.expect.claims", "scn.model.agrees"]
         + ["verify.kb.only." + f for f in ("absent", "sig", "typ", "aud", "nonce", "sdh")],
-        [KB_WIDE, KB_DEEP],
-        [{"driver": "replay", "scn": "kb_wide", "args": {"n": 600, "matrix": 0}}, {"driver": "attack", "args": {"n": 12, "family": "kb", "stride": 25}},
+        [KB_WIDE, KB_DEEP, DK_SIM],
+        [{"driver": "replay", "scn": "kb_wide", "args": {"n": 600, "matrix": 0}}, {"driver": "replay", "scn": "dk_sim", "args": {"n": 300, "matrix": 0}},
+         {"driver": "attack", "args": {"n": 12, "family": "kb", "stride": 25}},
          {"driver": "rich", "args": {"n": 400, "depth": 3, "arbsel": 0, "kb": 1, "xfmt": 1}}],
-        [{"driver": "replay", "scn": "kb_wide", "args": {"n": 100000, "matrix": 0}}, {"driver": "replay", "scn": "kb_deep", "args": {"n": 6000, "matrix": 0}}, {"driver": "attack", "args": {"n": 24, "family": "kb", "stride": 1}},
+        [{"driver": "replay", "scn": "kb_wide", "args": {"n": 100000, "matrix": 0}}, {"driver": "replay", "scn": "kb_deep", "args": {"n": 6000, "matrix": 0}},
+         {"driver": "replay", "scn": "dk_sim", "args": {"n": 8000, "matrix": 0}}, {"driver": "attack", "args": {"n": 24, "family": "kb", "stride": 1}},
          {"driver": "rich", "args": {"n": 10000, "depth": 6, "arbsel": 0, "kb": 1, "xfmt": 1}}],
         required={"verify.lenient.kb": 300, "verify.lenient.args": 50, "verify.accept": 20, "present.kb": 100,
                   **{"verify.kb.only." + f: 20 for f in ("absent", "sig", "typ", "aud", "nonce", "sdh")}},
